@@ -343,7 +343,7 @@ def checks():
     return [
         HypCheck(
             'truncate-and-perturb', cases, run_case,
-            budget={'quick': (16, 10), 'thorough': (16, 320)},
+            budget={'quick': (16, 24), 'thorough': (16, 320)},
             rule='well-formed files (writer programs and foreign files whose '
                  'content includes complete fake sections) x EVERY cut point '
                  '0..len(file) (records must be a prefix of the intact '
